@@ -152,10 +152,7 @@ def rule_dryrun_flow(ctx, px):
             names = [a.arg for a in g.node.args.args]
             if names and names[0] in ("self", "cls") and isinstance(c.func, ast.Attribute):
                 names = names[1:]
-            val = None
-            for k in c.keywords:
-                if k.arg == "is_dryrun":
-                    val = k.value
+            val = pyfront.call_keywords(f.node, c).get("is_dryrun")
             if val is None and "is_dryrun" in names:
                 idx = names.index("is_dryrun")
                 if idx < len(c.args):
@@ -184,10 +181,10 @@ def _gen_calls(f, attr_recv, meth):
     return out
 
 
-def _kw(c, name, pos=None):
-    for k in c.keywords:
-        if k.arg == name:
-            return ast.unparse(k.value)
+def _kw(c, name, pos=None, func_node=None):
+    kws = pyfront.call_keywords(func_node, c) if func_node is not None else {k.arg: k.value for k in c.keywords if k.arg}
+    if name in kws:
+        return ast.unparse(kws[name])
     if pos is not None and pos < len(c.args):
         return ast.unparse(c.args[pos])
     return None
@@ -254,10 +251,10 @@ def rule_list_sibling(ctx, px):
             lc, lg = l_calls[0]
             ctx.ob(R, lo.module.rel, f"{lo.short}/{recv}: same condition as _generate", lg == gg,
                    "" if lg == gg else f"listing runs under {list(lg)} but generation under {list(gg)}", lc.lineno)
-            d = _kw(lc, "is_dryrun", 0)
+            d = _kw(lc, "is_dryrun", 0, lo.node)
             ctx.ob(R, lo.module.rel, f"{lo.short}/{recv}: is_dryrun=True", d == "True", "" if d == "True" else f"is_dryrun={d}", lc.lineno)
             for arg, pos in (("omit_serialization_support", 2),):
-                a, b = _kw(lc, arg, pos), _kw(gc, arg, pos)
+                a, b = _kw(lc, arg, pos, lo.node), _kw(gc, arg, pos, gen.node)
                 if not _set_determining(px, recv_cls[recv], arg):
                     ctx.ob(R, lo.module.rel, f"{lo.short}/{recv}: {arg} as in _generate", True,
                            f"{recv_cls[recv]}.generate_all uses {arg} only for update_nunavut_globals (file content, "
@@ -272,7 +269,7 @@ def rule_list_sibling(ctx, px):
             ic, ig = i_calls[0]
             ctx.ob(R, li.module.rel, f"{li.short}/{recv}: same condition as _generate", ig == gg,
                    "" if ig == gg else f"template listing runs under {list(ig)} but generation under {list(gg)}", ic.lineno)
-            a, b = _kw(ic, "omit_serialization_support", 0), _kw(gc, "omit_serialization_support", 2)
+            a, b = _kw(ic, "omit_serialization_support", 0, li.node), _kw(gc, "omit_serialization_support", 2, gen.node)
             ctx.ob(R, li.module.rel, f"{li.short}/{recv}: omit_serialization_support as in _generate", a == b,
                    "" if a == b else f"{a} vs {b}", ic.lineno)
             n += 2
